@@ -1,14 +1,9 @@
 #!/bin/bash
-# Runs every behaviour-preserving diff under /verif/benign/*/ through benignrun.sh; all must pass (no alarm).
+# Runs every behaviour-preserving diff under /verif/benign/*/ through benignrun.sh (3 at a time); all must pass (no alarm).
 cd /verif
-: > benign/RESULTS.txt.tmp
-bad=0
-for d in benign/*/; do
-  for f in $d/benign-*.diff; do
-    tools/benignrun.sh /verif/$f "$(basename $d)-$(basename $f .diff)" | tee -a benign/RESULTS.txt.tmp
-    [ ${PIPESTATUS[0]} -eq 0 ] || bad=$((bad+1))
-  done
-done
-mv benign/RESULTS.txt.tmp benign/RESULTS.txt
-echo "diffs raising an alarm: $bad"
+ls benign/*/benign-*.diff | xargs -P 3 -I{} bash -c 'f={}; tools/benignrun.sh /verif/$f "$(basename $(dirname $f))-$(basename $f .diff)"' > benign/RESULTS.txt.tmp
+sort -V benign/RESULTS.txt.tmp > benign/RESULTS.txt; rm -f benign/RESULTS.txt.tmp
+cat benign/RESULTS.txt
+bad=$(grep -c '^FALSE-ALARM\|DOES NOT APPLY' benign/RESULTS.txt)
+echo "alarms on harmless diffs: $bad"
 [ $bad -eq 0 ]
